@@ -33,7 +33,7 @@ func (d *deco) acts(allowRecv bool) []Act {
 func (d *deco) script(allowRecv bool) Script {
 	s := Script{ID: d.id(), Acts: d.acts(allowRecv)}
 	if d.panics && d.r.Intn(12) == 0 {
-		s.Pn = []string{"boom", "bang", "pow"}[d.r.Intn(3)]
+		s.Pn = []string{"boom", "bang", "pow", "nil"}[d.r.Intn(4)]
 	}
 	return s
 }
